@@ -1238,6 +1238,14 @@ def description_reads(prog, f, cls, depth=2, _seen=None):
     out = {}
     cond = {}
     for n in walk(f.node):
+        # `d.get(k)` / `d.get(k, dflt)`: a read which tolerates the absent
+        # key - decided (conditional), never a requirement
+        if isinstance(n, ast.Call) and isinstance(n.func, ast.Attribute) \
+                and n.func.attr == 'get' and is_descr(n.func.value) and \
+                n.args and isinstance(n.args[0], ast.Constant) and \
+                isinstance(n.args[0].value, str):
+            cond.setdefault(n.args[0].value, (f, n))
+            continue
         if isinstance(n, ast.Subscript) and isinstance(n.ctx, ast.Load) and \
                 is_descr(n.value) and isinstance(n.slice, ast.Constant) and \
                 isinstance(n.slice.value, str):
@@ -6825,4 +6833,15 @@ SILENT += [
              "        with open(fname + '.log', 'a') as log:\n            log.write('%s\\n' % type(obj))\n        return fname\n    except Exception as e:\n        raise SerializationError(\"Failed to serialize object to file\"")]),
     dict(name='reader opens the file with an explicit mode keyword', edits=[
         (_S, "        with open(fname, 'rb') as f:", "        with open(fname, mode='rb') as f:")]),
+]
+
+SILENT += [
+    # R19.2b: a tolerant read (`.get(k)`) replaces the unconditional one - the
+    # obligation is decided as conditional, the rule keeps its anchors
+    dict(name='proc dispatcher reads the environment with .get() or {}', edits=[
+        (_W, "            env  = dict(self._task_env)\n            env.update(task['description']['environment'])",
+             "            env  = dict(self._task_env)\n            env.update(task['description'].get('environment') or {})")]),
+    dict(name='shell dispatcher reads the environment with .get(k, {})', edits=[
+        (_W, "            env = dict(self._task_env)\n            env.update(task['description']['environment'])",
+             "            env = dict(self._task_env)\n            env.update(task['description'].get('environment', {}))")]),
 ]
